@@ -1271,3 +1271,9 @@ _add_family(globals(), _si, 'storeinit', _si.oracle, share=0.03)
 # schema overrides reach exactly the process they name (processes sharing a schema object or a parameter dictionary)
 from harness import schemaleak as _sl                   # noqa: E402
 _add_family(globals(), _sl, 'schemaleak', _sl.oracle, share=0.03)
+
+
+# a schema override on a parallel process reaches it through every entry point
+from harness import paroverride as _po                  # noqa: E402
+from harness.mixins import add_family as _add_family    # noqa: E402,F811
+_add_family(globals(), _po, 'paroverride', _po.oracle, share=0.02)
